@@ -230,10 +230,36 @@ def r5_formatters(rep, facts):
                 except Unanalysable:
                     rng.append('?')
         return sorted(calls), lits, rng
+    from .den import RecInterp, EvalPanic
+
+    def effects(ty, d, n_elems, multiline):
+        """what the hook does to a node with n_elems children: the recorded setter calls, in order (the formatter's own flags all false, except
+        `multiline_array`, which Pretty does not have: it always lays arrays out over several lines)"""
+        bb = facts.body(d)
+        pn = [p_['name'] for p_ in bb.get('params', []) if p_.get('k') == 'p_bind']
+        adt = facts.adts.get(ty) or {}
+        fields = {f['name']: (multiline if f['name'] == 'multiline_array' else False) for v in adt.get('variants', []) for f in v.get('fields', [])}
+        it = RecInterp(Evaluator(facts), {'clear', 'set_implicit', 'set_trailing', 'set_trailing_comma', 'set_prefix', 'set_suffix', 'set_dotted', 'fmt'},
+                       {'visit_table_mut', 'visit_value_mut', 'visit_array_mut', 'visit_item_mut', 'visit_table_like_mut'},
+                       stubs={'len': n_elems, 'is_empty': n_elems == 0, 'decor_mut': ('opaque',), 'iter_mut': tuple(('item', i) for i in range(n_elems)),
+                              'get_values': tuple((('k', i), ('v', i)) for i in range(n_elems))})
+        try:
+            it.val(bb['body'], {pn[0]: ('struct', ty, fields), pn[1]: ('struct', 'node', {}), '@assign': {}})
+        except EvalPanic:
+            pass
+        return [(nm, tuple(x for x in args if isinstance(x, (str, bool, int)))) for nm, args in it.calls if not nm.startswith('visit_')]
     for hook in ('visit_table_mut', 'visit_value_mut', 'visit_array_mut'):
         if hook in ovs[a] and hook in ovs[b]:
-            x, y = summary(ovs[a][hook]), summary(ovs[b][hook])
-            rep.check(R, hook, x == y, f'{x}', f'`{hook}` differs: DocumentFormatter {x}, Pretty {y}')
+            try:
+                diffs = []
+                for n_el in (0, 1, 2, 3):
+                    x, y = effects(a, ovs[a][hook], n_el, True), effects(b, ovs[b][hook], n_el, True)
+                    if x != y:
+                        diffs.append(f'on a node with {n_el} children DocumentFormatter (multiline_array) does {x}, Pretty does {y}')
+                rep.check(R, hook, not diffs, 'same effects on nodes with 0..3 children', f'`{hook}` differs: ' + '; '.join(diffs[:2]))
+            except Unanalysable:
+                x, y = summary(ovs[a][hook]), summary(ovs[b][hook])
+                rep.check(R, hook, x == y, f'{x}', f'`{hook}` differs: DocumentFormatter {x}, Pretty {y}')
     # the implicit-table rule itself: a table's header is hidden exactly when the table has entries of any kind (`!node.is_empty()` on the
     # visited table): an empty table keeps its header, because it is only visible through it
     from .shared import conditions_above
